@@ -14,7 +14,7 @@ RULE = ('Base documents: generated conformant documents of every selectable map 
         'non-trivial = distinct (map, node path, fault kind) triples decided.')
 ASSUMPTIONS = ['a syntax fault may be reported at any element position the violated note names', 'unknown / out-of-place segments may be reported with segment code 1 or 2',
                'faults are only injected where they cannot change how the segment or its neighbours are matched (no qualifiers, HL/LX numbers, BHT02), except the structural kinds, which are constructed so that the successor still matches its own node first']
-REQUIRED_COUNTERS = ['bases:with-interleaved-sibling-loops', 'bases:with-X,Y,X-sibling-loops', 'missing_segment:in-later-instance-after-sibling-loop', 'bad_code:member-of-another-external-set-seen-earlier', 'bad_code:code-list-on-non-ID-element', 'missing_required:whole-composite', 'missing_required:whole-composite:at-the-tail', 'bad_qualified_datetime:format:DT', 'bad_qualified_datetime:format:TM', 'bad_qualified_datetime:format:RD8', 'syntax:L:short', 'syntax:L:gaps', 'syntax:P:short', 'syntax:P:gaps', 'syntax:C:gaps', 'syntax:R:short', 'bad_char:outside-charset:B:00501', 'bad_char:outside-charset:B:00401', 'bad_char:outside-charset:E:00401', 'faults'] + ['kind:' + k for k in faults.ALL_KINDS] + ['localised', 'others-accepted-checked']
+REQUIRED_COUNTERS = ['bases:with-interleaved-sibling-loops', 'bases:with-X,Y,X-sibling-loops', 'missing_segment:in-later-instance-after-sibling-loop', 'bad_code:member-of-another-external-set-seen-earlier', 'bad_code:code-list-on-non-ID-element', 'missing_required:whole-composite', 'missing_required:whole-composite:at-the-tail', 'bad_qualified_datetime:format:DT', 'bad_qualified_datetime:format:TM', 'bad_qualified_datetime:format:RD8', 'syntax:L:short', 'syntax:L:gaps', 'syntax:P:short', 'syntax:P:gaps', 'syntax:C:gaps', 'syntax:R:short', 'bad_code:with-another-set-excluded', 'bad_code:with-another-set-excluded:related-name', 'bad_char:outside-charset:B:00501', 'bad_char:outside-charset:B:00401', 'bad_char:outside-charset:E:00401', 'faults'] + ['kind:' + k for k in faults.ALL_KINDS] + ['localised', 'others-accepted-checked']
 MIN_CASES = {'quick': 1200, 'thorough': 30000}
 WATCHDOG_S = {'quick': 1200, 'thorough': 7200}
 
@@ -22,7 +22,17 @@ WATCHDOG_S = {'quick': 1200, 'thorough': 7200}
 def judge(ctx, f, case, sigs):
     doc = f.doc
     text = doc.text()
-    res = pipeline.validate(text, charset=doc.charset)
+    excl = None
+    ext = getattr(f, 'external', None)
+    if f.kind == 'bad_code' and ext and (getattr(f, 'force_exclusion', False) or zlib.crc32(repr((f.value, f.seg_pos)).encode()) % 2):
+        # the option that switches off ONE external code set, naming another set than this element's (by preference one whose name contains
+        # this one's or is contained in it): the fault is as much a fault as before
+        others = sorted(x for x in gen_doc.CODES() if x != ext)
+        related = [x for x in others if x in ext or ext in x]
+        excl = related[0] if related else others[zlib.crc32(ext.encode()) % len(others)]
+        ctx.count('bad_code:with-another-set-excluded' + (':related-name' if related else ''))
+        case = dict(case, exclude_external_codes=excl)
+    res = pipeline.validate(text, charset=doc.charset, exclude_external=excl)
     ctx.count('faults')
     ctx.count('kind:' + f.kind)
     if res.exc is not None:
@@ -249,6 +259,50 @@ def run(ctx):
             ctx.count('syntax:' + f.note.split(' shape:')[1])
             judge(ctx, f, {'map': e['file'], 'entry': e, 'gen_seed': seed, 'params': kw, 'fault': f.describe(), 'text': f.doc.text() if len(f.doc.recs) < 120 else None}, sigs)
             n += 1
+    # directed: an element bound to an external code set whose name is contained in (or contains) another set's name, outside its list, while the
+    # option excludes that other set alone
+    CODES = gen_doc.CODES()
+    rel_sets = sorted(x for x in CODES if any(y != x and (x in y or y in x) for y in CODES))
+    for e in entries:
+        if not ctx.mine(('related-set', e['file'], e.get('tspc'))):
+            continue
+        root = gen_doc.load_map(e['file'])
+        if not any(nd.kind == 'ele' and nd.external in rel_sets and nd.usage != 'N' for nd in refmap.walk(root)):
+            continue
+        done = 0
+        for t in range(16):
+            if done >= (2 if ctx.quick else 6):
+                break
+            seed = zlib.crc32(repr((ctx.seed, 'related-set', e['file'], t)).encode())
+            kw = dict(fill=0.8, opt_prob=0.9, maxrep=1, charset='E', rich=False, n_isa=1, n_gs=1, n_st=1)
+            try:
+                base = gen_doc.gen_document(e, seed, **kw)
+            except gen_doc.GenFailed:
+                continue
+            if len(base.recs) > 900:
+                continue
+            sites = [x for x in faults.element_sites(base, None) if x[1].external in rel_sets and x[1].usage != 'N' and faults._present(x[4]) and faults._plain_site(x[0], x[1], x[2], x[3], x[4], base)]
+            if not sites:
+                continue
+            rng = ctx.sub_rng('c03r', e['file'], t)
+            i, node, ep, sp, cur = rng.choice(sites)
+            dt, mn, mx = gen_doc.dtype_of(node)
+            own = set(node.codes) | set(CODES.get(node.external, []))
+            vals = [c for c in ('ZQ', 'Z', 'ZQZ', 'ZQZQ', 'ZQZQZ', 'ZQZQZQZQ') if mn <= len(c) <= mx and c not in own]
+            if not vals:
+                continue
+            r0 = pipeline.validate(base.text(), charset=base.charset)
+            if r0.exc is not None or r0.verdict is not True:
+                ctx.count('base-not-accepted')
+                continue
+            d = faults.clone(base)
+            faults.set_value(d.recs[i], ep, sp, vals[0])
+            f = faults._mk(d, 'bad_code', i, ep, sp, ['7'], vals[0], external=node.external, force_exclusion=True)
+            if f is None:
+                continue
+            done += 1
+            judge(ctx, f, {'map': e['file'], 'entry': e, 'gen_seed': seed, 'params': kw, 'fault': f.describe(), 'text': f.doc.text() if len(f.doc.recs) < 120 else None}, sigs)
+            n += 1
     ctx.case(n=n, sigs=sorted(sigs))
 
 
@@ -257,7 +311,7 @@ def replay(ctx, case):
     print('fault:', case['fault'])
     if text is None:
         raise RuntimeError('document not stored (long); regenerate from entry/gen_seed/params and re-inject')
-    res = pipeline.validate(text, charset=case['params']['charset'])
+    res = pipeline.validate(text, charset=case['params']['charset'], exclude_external=case.get('exclude_external_codes'))
     print('verdict', res.verdict)
     for e in res.errors or []:
         print('  ', e[:12])
